@@ -26,7 +26,7 @@ impl DuplicateEnumVariantId {
                 .filter(|var| var.id().value().parse::<u32>().is_ok()),
             |var| var.id().value(),
             |duplicate, first| {
-                max_id += 1;
+                max_id = u32::wrapping_add(max_id, 1);
                 let free_id = max_id;
                 validate.add_error(Self {
                     schema_name: validate.schema_name().to_owned(),
